@@ -1,4 +1,5 @@
 import NTV.Proofs.Lemmas.HnfCanon
+import NTV.Proofs.Lemmas.HnfDet
 /-! # C02 — the Hermite normal form is the canonical basis of the row lattice.
 `A` is any rectangular integer matrix with n ≥ 1 rows and m ≥ 1 columns. -/
 namespace NTV.C02
@@ -38,6 +39,11 @@ empty operand or a width mismatch) -/
 theorem union_is_hnf_of_stack (a b : Mat) (ra rb : Row) (ta tb : Mat) (ha : a = ra :: ta) (hb : b = rb :: tb)
     (hw : ra.length = rb.length) : union a b = .ok (hnfNew (a ++ b)) := by
   subst ha hb; simp [union, hw]
+
+/-- for a square full-rank input (k = 0) the reported determinant is the lattice index |det A| -/
+theorem determinant_is_index (A : Mat) (n : Nat) (hr : Rect n n A) (hn : 0 < n)
+    (H U : Mat) (hres : hnfWithU A = some (H, U, 0)) :
+    determinant H = |(toM n n A).det| := determinant_eq_index A n hr hn H U hres
 
 /-- non-vacuity -/
 example : Rect 2 2 [[3, 1], [1, 1]] ∧ 0 < 2 := ⟨⟨rfl, by simp⟩, by decide⟩
